@@ -106,7 +106,7 @@ func (tr *Tracer) loadCell(st *state, addr *Sym, t types.Type) *Sym {
 		}
 	}
 	var v *Sym
-	if addr.root().Kind == KAlloc && addr.Kind != KIndexAddr && !tr.allocHasUnknownContent(addr.root()) {
+	if addr.root().Kind == KAlloc && addr.Kind != KIndexAddr && !tr.allocHasUnknownContent(addr.root()) && !st.dirty[addr.root().ID] {
 		// fresh allocation: zero value
 		v = zeroSym(t)
 	} else {
@@ -237,6 +237,12 @@ func (tr *Tracer) escape(st *state, v *Sym) {
 // havoc forgets the content of every cell that other code may change: everything except cells of
 // fields that are immutable after construction and cells rooted at allocations that did not escape.
 func (tr *Tracer) havoc(st *state, why string) {
+	// escaped allocations may have been written by other code: cells not yet materialised are unknown too
+	for id := range st.escaped {
+		if !st.dirty[id] {
+			st.dirty[id] = true
+		}
+	}
 	for k, c := range st.store {
 		if tr.keepOnHavoc(st, c.addr) {
 			continue
